@@ -433,8 +433,8 @@ fn update_step(ntop: usize, nmid: Option<usize>, nidx: usize, replay: bool, pref
     flat.used[c as usize] = true;
     kani::assume(flat.distinct() <= CAP);
     if replay {
-        let mut ups: Vec<Update> = Vec::with_capacity(2);
-        ups.push((fname(), mk_key(c), if del { None } else { Some(bx(v)) }));
+        // vec![..] rather than push into a with_capacity buffer: CBMC keeps the length constant
+        let ups: Vec<Update> = alloc::vec![(fname(), mk_key(c), if del { None } else { Some(bx(v)) })];
         assert!(p.apply_updates(&ups).is_ok());
         core::mem::forget(ups);
     } else if del {
